@@ -207,3 +207,20 @@ func vgAdjOf(g Graph) [][]bool {
 	}
 	return adj
 }
+
+// vgDrain receives, without blocking, everything a producer left in its buffered channel
+// and reports whether the producer closed the channel (a consumer ranging over it would
+// otherwise wait for ever).
+func vgDrain(ch chan []int) (out [][]int, closed bool) {
+	for {
+		select {
+		case c, ok := <-ch:
+			if !ok {
+				return out, true
+			}
+			out = append(out, c)
+		default:
+			return out, false
+		}
+	}
+}
